@@ -119,8 +119,9 @@ CLAIMS = {
     category="fault_enumeration",
     text="Supervised execution of a structure-aware mutation corpus (truncation at every offset, every length prefix x 23 magnitudes "
          "up to 2^128, integers at the limits, wrong types in every tree position, nesting to the full datagram length, random "
-         "flips/splices) through the real decoder on a 2 MiB stack under a counting allocator, and through a real serving node whose "
-         "recording is validated by TLC (it must keep answering queries and complete every API call).",
+         "flips/splices, every fixed-size field of queries and responses at every length 0..90) through the real decoder on a 2 MiB stack under a counting allocator, and through a real serving node whose "
+         "recording is validated by TLC (it must keep answering queries and complete every API call); searching nodes on hostile "
+         "networks (solicited answers with hostile node lists: own id, duplicates, one id at two addresses).",
     design_ref="DESIGN.md §5 C14",
     note="Memory safety / resource use cannot be established by a TLA+ model: fault enumeration, not proof. The TLA+ part is the "
          "node-level trace specification and the expected 'no reply to garbage' rule.",
@@ -131,7 +132,8 @@ CLAIMS = {
          "of either family x 0..8 nodes per family x transaction ids up to 32 bytes) and every query shape: the only datagrams that "
          "can exceed 1500 bytes are get_peers replies that are too long because of `values` (the recorded finding; thresholds 148/175 "
          "IPv4 and 51 IPv6 peers are printed). On recordings of real nodes TLC checks the length of EVERY datagram sent; the known "
-         "class is reported as KNOWN-FINDING, anything else is a violation.",
+         "class (too long only because of values that the store is entitled to return -- C07's ValuesOK) is reported as KNOWN-FINDING, "
+         "anything else is a violation, including replies inflated by peers that should have expired (day-long 'stale swarm' recordings).",
     design_ref="DESIGN.md §5 C17, §6",
     note="The finding is recorded, not repaired (capping `values` contradicts C07).",
     technique="TLA+ size model evaluated by TLC; TLC trace validation of every datagram sent by real nodes"),
@@ -179,7 +181,7 @@ CLAIMS = {
     technique='TLA+ spec + TLC model checking (where a design-level model exists); TLC trace validation of recorded executions of real nodes'),
  "C18": dict(
     category="model_checking",
-    text='Design level: spec/Handler.tla is checked by TLC (AtMostOneRefreshTimer, RoundsBounded) over every interleaving of re-bootstraps and timers; the pinned-tree policy CancelPending=FALSE must be caught. Binding: The maintenance recordings (hundreds to thousands of re-bootstrap cycles, send failures) carry one RefreshRound line per round (hook H3) and one BootSuccess line per completion; TLC checks in sliding windows of 30 s, 2 min and 20 min that the number of rounds never exceeds one per 6 s plus one plus the number of completions in the window, and that every round is caused by the refresh timer or by a bootstrap completion.',
+    text='Design level: spec/Handler.tla is checked by TLC (AtMostOneRefreshTimer, RoundsBounded) over every interleaving of re-bootstraps and timers; the pinned-tree policy CancelPending=FALSE must be caught. Binding: The maintenance recordings (hundreds to thousands of re-bootstrap cycles, send failures) carry one RefreshRound line per round (hook H3) and the worker's BootState line per completion; TLC checks round by round that a timer round comes at least 6 s after the previous round and that a round started by the bootstrap notification has a completion of its own, and in sliding windows of 30 s, 2 min and 20 min that the number of rounds never exceeds one per 6 s plus one plus the number of completions in the window, and that every round is caused by the refresh timer or by a bootstrap completion.',
     design_ref='DESIGN.md §5 C18',
     note='A round that pings nobody is invisible on the wire, hence the hook.',
     technique='TLA+ spec + TLC model checking (where a design-level model exists); TLC trace validation of recorded executions of real nodes'),
